@@ -906,6 +906,20 @@ def rule_R11(res, prog):
         for (bid, idx, ln, node) in cu.find_sites(fn, lambda m: m.get("k") == "call" and m.get("fn") == "matrixSslDecode"):
             n += 1
             esc = cu.escapes(fn, (bid, idx), sets_err, is_target=pf_ret)
+            if esc is None:
+                # results of the decoder that no arm of the switch names (an allocation failure passed up as its own code)
+                # leave through `return rc` with rc still PS_PROTOCOL_FAIL: the switch has a default arm that flags the session
+                for sb in fn.blocks:
+                    t = sb.get("term")
+                    if t is not None and t.get("k") == "switch" and "decodeRet" in cu.ftext(t.get("c") or {}):
+                        dflt = [sc.get("b") for sc in sb["succ"] if sc.get("default") and sc.get("b") is not None]
+                        cases = [sc for sc in sb["succ"] if "case" in sc]
+                        if len(cases) < 4:
+                            continue
+                        if not dflt:
+                            esc = [(sb["id"], t.get("ln")), (sb["id"], t.get("ln"))]
+                        else:
+                            esc = cu.escapes(fn, (dflt[0], None), sets_err)
             f_ = None
             if esc is not None:
                 f_ = Finding(PROP, rid, fn.name, "ReceivedData gives up without flagging the session",
